@@ -5,6 +5,16 @@
       (3 n1 n2 v alt outcome)                                      stats.MannWhitneyUTest on n1 and n2 copies of
                                                                    the value v (large all-equal samples: only the
                                                                    sizes are shipped)
+      (4 series (lim_untied lim_tied) ops oracle)                  history of MannWhitneyUTest calls on windows of
+                                                                   ONE backing array of the caller;
+                                                                   op = (lo1 hi1 lo2 hi2 alt outcome mut): the call on
+                                                                   series[lo1:hi1], series[lo2:hi2]; mut = the positions
+                                                                   (index bits) at which the array differs, after the
+                                                                   call, from its values before the first call
+      (5 gomaxprocs goroutines calls race_ok unchanged jobs)       batch of concurrent calls; job = (case1 outcomes):
+                                                                   a kind-1 case holding the SEQUENTIAL outcome and the
+                                                                   distinct outcomes the goroutines observed (in process
+                                                                   and in the -race binary); race_ok = detector silent
     outcome : (0 n1 n2 Ubits Pbits altecho) | (1) ErrSampleSize | (2) ErrSamplesEqual | (3) panic | (4) other error
     legacy  : () not run | (outcome') with outcome' = (0 Pbits) | (1) | (2) | (3) | (4)
     oracle  : list of (argbits erfcbits): math.Erfc called directly by the harness
@@ -32,7 +42,7 @@
     integers by Model/UDistUntiedEval.v ([untied_le], [untied_table]), proved equal
     to [count_le] / [count_eq] for all sizes (C11_untied_evaluator_le, _ge, _table_le, _table_eq). *)
 From Perf Require Import Base.Bytes Base.Sx Base.B64 Base.SxF.
-From Perf Require Import Model.UStat Model.UDistSpec Model.UDistImpl Model.UTest Model.UDistUntiedEval.
+From Perf Require Import Model.UStat Model.UDistSpec Model.UDistImpl Model.UTest Model.UDistUntiedEval Model.UTestHist.
 Local Open Scope Z_scope.
 
 (** ** decoding *)
@@ -79,9 +89,16 @@ Record ucase := mkU {
   u_out : outcome; u_legacy : legacy; u_oracle : list (Z * Z) }.
 Record dcase := mkD { d_n1 : Z; d_n2 : Z; d_T : list Z; d_q : list (Z * fout * fout) }.
 Record ecase := mkE { e_n1 : Z; e_n2 : Z; e_v : Z; e_alt : alt; e_out : outcome }.
-Inductive case := CU (c : ucase) | CD (c : dcase) | CE (c : ecase).
+(** kind 4: one call of a history *)
+Record hopc := mkHopc { ho_op : hop; ho_out : outcome; ho_mut : list (Z * Z) }.
+Record hcase := mkH { hc_series : list Z; hc_lims : Z * Z; hc_ops : list hopc; hc_oracle : list (Z * Z) }.
+(** kind 5: one job of a concurrent batch *)
+Record cjob := mkJ { j_case : ucase; j_conc : list outcome }.
+Record ccase := mkC { cc_procs : Z; cc_gor : Z; cc_calls : Z; cc_race_ok : bool; cc_unchanged : bool;
+                      cc_jobs : list cjob }.
+Inductive case := CU (c : ucase) | CD (c : dcase) | CE (c : ecase) | CH (c : hcase) | CC (c : ccase).
 
-Definition decode (s : sx) : option case :=
+Definition dec_ucase (s : sx) : option ucase :=
   match s with
   | SL [SZ 1; x1; x2; SZ a; lims; out; leg; orc] =>
       do x1 <- as_list as_z x1; do x2 <- as_list as_z x2;
@@ -89,7 +106,38 @@ Definition decode (s : sx) : option case :=
       do lims <- as_pair as_z as_z lims;
       do out <- dec_outcome out; do leg <- dec_legacy leg;
       do orc <- as_list (as_pair as_z as_z) orc;
-      Some (CU (mkU x1 x2 a lims out leg orc))
+      Some (mkU x1 x2 a lims out leg orc)
+  | _ => None
+  end.
+
+Definition dec_hopc (s : sx) : option hopc :=
+  match s with
+  | SL [SZ lo1; SZ hi1; SZ lo2; SZ hi2; SZ a; out; mut] =>
+      do a <- dec_alt a; do out <- dec_outcome out;
+      do mut <- as_list (as_pair as_z as_z) mut;
+      Some (mkHopc (mkHop lo1 hi1 lo2 hi2 a) out mut)
+  | _ => None
+  end.
+
+Definition dec_cjob (s : sx) : option cjob :=
+  match s with
+  | SL [u; outs] => do u <- dec_ucase u; do outs <- as_list dec_outcome outs; Some (mkJ u outs)
+  | _ => None
+  end.
+
+Definition decode (s : sx) : option case :=
+  match s with
+  | SL [SZ 1; _; _; _; _; _; _; _] => do c <- dec_ucase s; Some (CU c)
+  | SL [SZ 4; series; lims; ops; orc] =>
+      do series <- as_list as_z series;
+      do lims <- as_pair as_z as_z lims;
+      do ops <- as_list dec_hopc ops;
+      do orc <- as_list (as_pair as_z as_z) orc;
+      Some (CH (mkH series lims ops orc))
+  | SL [SZ 5; SZ procs; SZ gor; SZ calls; rok; unch; jobs] =>
+      do rok <- as_bool rok; do unch <- as_bool unch;
+      do jobs <- as_list dec_cjob jobs;
+      Some (CC (mkC procs gor calls rok unch jobs))
   | SL [SZ 2; SZ n1; SZ n2; t; qs] =>
       do t <- as_list as_z t;
       do qs <- as_list (as_triple as_z dec_fout dec_fout) qs;
@@ -353,8 +401,68 @@ Definition corr_ok_e (c : ecase) : bool :=
                     (e_out c)
       else true).
 
+(** ** kind 4: a history of calls on windows of one backing array of the caller.
+    Specification: no call changes the caller's array, and every call returns what
+    the property prescribes for the values its windows held BEFORE the first call
+    ([prop_ok_u] on the windows of the original series).
+    Model: [run_hist] (Model/UTestHist.v): the function sorts private copies. *)
+Definition hop_ucase (c : hcase) (mem : list Z) (op : hopc) : ucase :=
+  mkU (arg1 mem (ho_op op)) (arg2 mem (ho_op op)) (h_alt (ho_op op)) (hc_lims c) (ho_out op) LNone (hc_oracle c).
+
+Definition hop_valid (c : hcase) (op : hopc) : bool :=
+  valid_window (hc_series c) (h_lo1 (ho_op op)) (h_hi1 (ho_op op))
+  && valid_window (hc_series c) (h_lo2 (ho_op op)) (h_hi2 (ho_op op)).
+
+Definition is_nil {A} (l : list A) : bool := match l with [] => true | _ => false end.
+
+Definition prop_ok_h (c : hcase) : bool :=
+  forallb (fun op => hop_valid c op
+                     && is_nil (ho_mut op)                                (* the inputs are unchanged *)
+                     && prop_ok_u (hop_ucase c (hc_series c) op))          (* judged on the original values *)
+          (hc_ops c).
+
+(** the model threads the caller's array through the calls *)
+Fixpoint corr_hist (c : hcase) (mem : list Z) (ops : list hopc) : bool :=
+  match ops with
+  | [] => true
+  | op :: r =>
+      let mem' := mem_after mem (ho_op op) in
+      corr_ok_u (hop_ucase c mem op)
+      && (if list_eqb Z.eqb mem' (hc_series c) then is_nil (ho_mut op) else negb (is_nil (ho_mut op)))
+      && corr_hist c mem' r
+  end.
+Definition corr_ok_h (c : hcase) : bool :=
+  forallb (hop_valid c) (hc_ops c) && corr_hist c (hc_series c) (hc_ops c).
+
+(** ** kind 5: concurrent calls.
+    Specification: at least 8 goroutines on at least 4 processors; the race
+    detector reported nothing; no input slice changed; the sequential outcome of
+    every job is what the property prescribes ([prop_ok_u]) and EVERY outcome a
+    goroutine observed for that job is bit for bit the sequential one.
+    Model: [run_batch] (Model/UTestHist.v): every slot holds [mwu] of its job. *)
+Definition outcome_same (a b : outcome) : bool :=
+  match a, b with
+  | ONum n1 n2 U P ae, ONum n1' n2' U' P' ae' =>
+      (n1 =? n1') && (n2 =? n2') && same_bits U U' && same_bits P P' && (ae =? ae')
+  | OErrSize, OErrSize | OErrEqual, OErrEqual => true
+  | _, _ => false
+  end.
+
+Definition job_conc_ok (j : cjob) : bool :=
+  negb (is_nil (j_conc j)) && forallb (outcome_same (u_out (j_case j))) (j_conc j).
+
+Definition prop_ok_c (c : ccase) : bool :=
+  (4 <=? cc_procs c) && (8 <=? cc_gor c) && (0 <? cc_calls c)
+  && cc_race_ok c && cc_unchanged c
+  && forallb (fun j => prop_ok_u (j_case j) && job_conc_ok j) (cc_jobs c).
+
+Definition corr_ok_c (c : ccase) : bool :=
+  forallb (fun j => corr_ok_u (j_case j) && job_conc_ok j) (cc_jobs c).
+
 Definition run_case (s : sx) : N :=
   match decode s with
+  | Some (CH c) => code_of (corr_ok_h c) (prop_ok_h c)
+  | Some (CC c) => code_of (corr_ok_c c) (prop_ok_c c)
   | Some (CU c) => code_of (corr_ok_u c) (prop_ok_u c)
   | Some (CD c) => code_of (corr_ok_d c) (prop_ok_d c)
   | Some (CE c) => code_of (corr_ok_e c) (prop_ok_e c)
